@@ -33,6 +33,9 @@ def run(ctx) -> None:
     ctx.reuse("C06.wiring", c16.override_set)
     ctx.reuse("C06.step-guard", c03.step_guard_validator)
     ctx.reuse("C06.step-guard", c03.step_guard_wiring)
+    from . import c02
+
+    ctx.reuse("C06.step-guard", c02.no_swallow)
     ctx.guard("C06.partition", partition_volume)
     ctx.guard("C06.multi-disp", multi_disp)
     ctx.guard("C06.config", config)
